@@ -51,7 +51,7 @@ Definition check_unit (cases : list unit_case) : report :=
 Inductive obs_answer :=
 | OPartial (a b size len : Z) (body : str)   (* 206: Content-Range a-b/size, Content-Length len, body bytes *)
 | O416 (size : Z)                            (* 416: Content-Range bytes */size *)
-| OFull (status : Z) (len : Z) (body : str)  (* whole body with status *)
+| OFull (status : Z) (len : Z) (body : str) (has_cr : bool)  (* whole body with status; has_cr: the response carries a Content-Range header *)
 | ONoResponse                                (* connection dropped / malformed *)
 | OOther (status : Z).
 
@@ -71,7 +71,7 @@ Definition ec_mismatch (c : e2e_case) : bool :=
   | Partial a b len, OPartial a' b' sz len' body =>
       (a =? a') && (b =? b') && (sz =? st_size st) && (len =? len') && str_eqb body (section content a len)
   | Refuse416 sz, O416 sz' => sz =? sz'
-  | Full s, OFull s' len body => (s =? s') && (len =? zlen content) && str_eqb body content
+  | Full s, OFull s' len body has_cr => (s =? s') && (len =? zlen content) && str_eqb body content && negb has_cr
   | _, _ => false
   end.
 
@@ -93,7 +93,9 @@ Definition ec_propfail (c : e2e_case) : bool :=
       | _ => false
       end
   | O416 sz => negb (sz =? st_size st)
-  | OFull s len body => negb ((s =? 200) && (len =? zlen content) && str_eqb body content)
+  | OFull s len body has_cr =>
+      (* the full 200: complete representation, not announced as a slice *)
+      negb ((s =? 200) && (len =? zlen content) && str_eqb body content && negb has_cr)
   | ONoResponse => true
   | OOther _ => true
   end.
